@@ -261,8 +261,8 @@ def o_cert(case, res, rep, rng):
     w, obj, stop = out
     tol = tol_of(case)
     strat = case.knobs.get("ws_strategy", case.knobs.get("opt_strategy", "subdiff"))
-    if case.solver == "FISTA":
-        return      # FISTA's reported value is not claimed to be a certificate by C01 (see C17)
+    if case.solver == "FISTA" and not (stop < tol):
+        return      # FISTA stops on the strict test stop_crit < tol
     if strat == "fixpoint" and case.solver in ("GroupBCD", "MultiTaskBCD", "ProxNewton") and np.all(np.isfinite(w)):
         # fixed-point strategy: the reported value is the fixed-point residual; recompute it independently
         try:
@@ -303,16 +303,22 @@ def o_cert(case, res, rep, rng):
 
 def o_stop_value(case, res, rep, rng):
     out = res["out"]
-    if out is None or case.solver in ("FISTA", "LBFGS"):
+    if out is None or case.solver in ("LBFGS",):
         return
     w, obj, stop = out
     tol = tol_of(case)
-    strat = case.knobs.get("ws_strategy", "subdiff")
+    strat = case.knobs.get("ws_strategy", case.knobs.get("opt_strategy", "subdiff"))
     if not (stop <= tol) or not np.all(np.isfinite(w)) or strat != "subdiff":
         return
     v, d = case.cert(w, rng)
     ww, _ = case.split(w)
     slack = 1e-6 * (1 + float(np.max(np.abs(case.X))) * (1 + (float(np.max(np.abs(ww))) if ww.size else 0)))
+    if case.solver == "FISTA" and stop < tol and abs(v - stop) > 1e-5 * (1 + v) + slack:
+        rep.violate("the run stopped on its tolerance but the returned stopping value is not the optimality violation of the "
+                    "returned point", dict(case.signature(site="FISTA.solve"), kind="stop-value-other-point"),
+                    case=case.describe(), impl_output=dict(stop_crit=float(stop), w=np.asarray(w).tolist()),
+                    oracle=dict(violation=v))
+        return
     if not v <= stop * (1 + 1e-5) + slack:
         rep.violate("the run stopped on its tolerance but the returned stopping value is smaller than the optimality "
                     "violation of the returned point", dict(case.signature(site=f"{case.solver}.solve"), kind="stop-value"),
